@@ -169,7 +169,7 @@ func (w *world) monitor() {
 				w.bad("prefix", "%s delivered %v, which is not a prefix (%s) of the uncancelled result %v for input %v", p.name, got, e.kind, exp, c2.Inputs)
 			}
 		}
-		if s.closed && !w.cancelled {
+		if s.closed && !w.cancelled && c2.Stage != "New" {
 			if !(w.inputsClosedAndConsumed(ins) || c2.earlyDone()) {
 				w.bad("closed-early", "%s reported closed while an input is still open or undelivered (issued %v, sent %v, buffered %d) and the context is not cancelled", p.name, c2.Inputs, ins[0].sent, ins[0].buffered)
 			} else if !(e.kind == "seq" && slices.Equal(got, exp) || e.kind != "seq" && sameMultiset(got, exp)) {
@@ -350,6 +350,7 @@ func (w *world) endCancel(bound int) {
 type hooks struct {
 	online func(w *world) // extra online monitor
 	final  func(w *world) // extra checks after the end game, before teardown
+	preEnd func(w *world) // extra checks after the script, before the end game
 	bound  func(c *caseT) int
 }
 
@@ -373,6 +374,9 @@ func runCase(t *testing.T, c *caseT, h hooks) *world {
 			}
 			w.quiesce()
 			w.exec(c.Script)
+			if h.preEnd != nil {
+				h.preEnd(w)
+			}
 			switch c.End {
 			case "complete":
 				w.endComplete()
